@@ -374,8 +374,22 @@ def asyncio_runner(chk):
                     isinstance(a, (ast.NamedExpr, ast.Assign)) and "self." + reg in util.unparse(a.value) and src in [util.unparse(t) for t in ([a.target] if isinstance(a, ast.NamedExpr) else a.targets)]
                     for a in ast.walk(loop_fn.node)
                 )
+                fresh = any(
+                    isinstance(a, (ast.NamedExpr, ast.Assign)) and "self." + reg in util.unparse(a.value) and src in [util.unparse(t) for t in ([a.target] if isinstance(a, ast.NamedExpr) else a.targets)]
+                    for a in ast.walk(loop)
+                )
                 if not snap:
                     chk.bad(rule, name, "the close loop ranges over %s instead of the task registry" % src, node=f, stmt="close-domain")
+                    ok = False
+                elif not fresh:
+                    chk.bad(
+                        rule,
+                        name,
+                        "every round of the close loop ranges over %s, a snapshot of the task registry taken ONCE before the loop: a payload task registered after the snapshot (adopted while the runner shuts down) is never cancelled and never removed, "
+                        "so the loop -- and with it run() -- never ends" % src,
+                        node=f,
+                        stmt="close-domain-stale-snapshot",
+                    )
                     ok = False
             it = Interp(prog, loop_fn, unroll=1)
             p = Path()
